@@ -18,7 +18,7 @@ from typing import Any, Dict, List, Optional
 
 import numpy as np
 
-NONE, WARN, RAISE = 0, 1, 2
+NONE, WARN, RAISE, RAISE_SE = 0, 1, 2, 3   # RAISE_SE: the pass raises fsic's own SolutionError (e.g. from a nested model)
 
 
 class ScriptedFault(ArithmeticError):
@@ -121,6 +121,9 @@ def make_scripted(N: int, *, with_z: bool = False, with_x: bool = True, base=Non
                     if fs == i:
                         if kind == RAISE:
                             raise ScriptedFault('scripted evaluation fault')
+                        if kind == RAISE_SE:
+                            from fsic.exceptions import SolutionError
+                            raise SolutionError('scripted nested solution error')
                         warnings.warn('scripted evaluation warning', RuntimeWarning)
                 if i < N:
                     self.__dict__['_Y%d' % i][t] = s.v[p][i]
@@ -272,6 +275,9 @@ def ref_solve_t(
                 if _tb(fs == i):
                     if _tb(kind == RAISE):
                         faulted = 'ScriptedFault'
+                        break
+                    if _tb(kind == RAISE_SE):
+                        faulted = 'SolutionError'
                         break
                     if strict:
                         faulted = 'RuntimeWarning'
